@@ -88,6 +88,7 @@ type Exec struct {
 	fileData map[string]fileStub
 	hb       *hbState
 	syncs    map[*value]*syncObj
+	unsafeT  map[*value]types.Type // pointer type a cell was converted to unsafe.Pointer from
 	raceMsgs []string
 	wtrack   map[*value]bool
 	wtrackM  map[*mapVal]bool
@@ -670,6 +671,45 @@ func (x *Exec) initGlobals() {
 		}()
 	}
 	x.inInit = false
+	x.steps = 0
+}
+
+// reinitOwnGlobals gives the package under test fresh package-level variables at the start of every path
+// (mutable package state — caches, pools, counters — must not leak from one explored path into the next).
+// Library packages keep their one-time initialisation: their package-level state is treated as immutable tables.
+func (x *Exec) reinitOwnGlobals() {
+	pkg := x.P.pkg
+	any := false
+	for _, m := range pkg.Members {
+		if g, ok := m.(*ssa.Global); ok {
+			if cell, ok := x.globals[g]; ok {
+				*cell = x.zero(deref(g.Type()))
+				any = true
+			}
+		}
+	}
+	if !any {
+		return
+	}
+	fn := pkg.Func("init")
+	if fn == nil {
+		return
+	}
+	x.inInit = true
+	saved := x.stepLimit
+	x.stepLimit = 1 << 40
+	func() {
+		defer func() {
+			if r := recover(); r != nil {
+				x.inInit = false
+				x.stepLimit = saved
+				panic(r)
+			}
+		}()
+		x.callSSA(nil, token.NoPos, fn, nil, nil)
+	}()
+	x.inInit = false
+	x.stepLimit = saved
 	x.steps = 0
 }
 
